@@ -102,10 +102,13 @@ Definition bencode (s : bstate) (sites : list N) : res bobs :=
                                        | Some p => match fp_name p with Some n => [(fst ki, n)] | None => [] end
                                        | None => []
                                        end) live in
-      let imps := filter (fun i => negb (i_del i)) (m_imports (b_m s)) in
-      let nimp := lenN (filter (fun i => N.eqb (i_sp i) 0) imps) in
+      (* the import section in index order (Reindex.emitted_imports, since the repair of D02) *)
+      let lg := match index_space (m_g (b_m s)) with Ok (l, _) => l | Panic _ => [] end in
+      let lm := match index_space (m_m (b_m s)) with Ok (l, _) => l | Panic _ => [] end in
+      let imps := map (import_at (m_imports (b_m s))) (emitted_imports (m_imports (b_m s)) lf lg lm) in
+      let nimp := lenN (filter (fun i => N.eqb (fst i) 0) imps) in
       match rmapb (emit_func s names nimp) (numberN 0 (map snd live)), rmapb (emit_site mf) (numberN 0 sites) with
-      | Ok fs, Ok ss => Ok (mkBO (map (fun i => (i_sp i, i_fp i)) imps) fs ss)
+      | Ok fs, Ok ss => Ok (mkBO imps fs ss)
       | Panic w, _ | _, Panic w => Panic w
       end
   | Panic w => Panic w
